@@ -284,6 +284,24 @@ func (t *Tree) Generate(inv Invocation, tag string) (*GenResult, error) {
 	case "absslash":
 		cwd = t.Base
 		args = append(args, inv.Dir+"/")
+	case "parentref":
+		// from a sibling directory: ../<name>
+		sib := inv.Dir + "_sib"
+		if err := os.MkdirAll(sib, 0o755); err != nil {
+			return nil, Infra("%v", err)
+		}
+		defer os.Remove(sib)
+		cwd = sib
+		args = append(args, "../"+filepath.Base(inv.Dir))
+	case "fromsub":
+		// from a sub-directory of the project: ..
+		sub := filepath.Join(inv.Dir, "zz_subdir")
+		if err := os.MkdirAll(sub, 0o755); err != nil {
+			return nil, Infra("%v", err)
+		}
+		defer os.Remove(sub)
+		cwd = sub
+		args = append(args, "..")
 	case "symlink":
 		// the same directory reached through a symbolic link next to it
 		link := inv.Dir + "_lnk"
